@@ -198,6 +198,14 @@ def gen_sheet(rng):
                 t0 = titles[0]
                 row[0] = {'Key': "kf", 'Name': "x", 'Num': 1, 'Flag': 'v', 'Tags': "q", 'Opt': "o"}.get(
                     t0, 'v' if spec['range_kind'] == 'set' else "r")
+    if not spec['ladder'] and spec['n_id'] >= 1 and 'Key' in titles and 'Num' in titles:
+        # rows without a key give no object - whatever stands in their other cells (a foot-note, a '-')
+        for row in data:
+            key_blank = row[titles.index('Key')] is None and (spec['n_id'] == 1 or row[titles.index('Name')] is None)
+            if key_blank and rng.random() < 0.5:
+                row[titles.index('Num')] = rng.choice(["n/a", "-", "see note 3"])
+                if 'Flag' in titles and rng.random() < 0.5:
+                    row[titles.index('Flag')] = "maybe"
     trailing = []
     r = rng.random()
     if r < 0.6 and spec['stop_on'] == "blank all":
@@ -454,6 +462,42 @@ def judge(ctx, spec, case):
                                 problems.append(("ladder-reading-differs-from-filled-in-table",
                                                  {"object": idx, "attr": attr, "ladder": repr(getattr(a, attr)),
                                                   "filled": repr(getattr(b, attr))}))
+    if not problems and spec['tags_kind'] == 'list':
+        # the caller edits the lists it was given in place; a later reading of the sheet (and the other objects
+        # of this reading) must not see that
+        touched = 0
+        for o in objs:
+            if o is not None and isinstance(o.tags, list):
+                o.tags.append("<edited by the caller>")
+                touched += 1
+                break
+        if touched:
+            ctx.count("sheets_read_again_after_the_caller_edited_a_list")
+            try:
+                again = X.read_table(ws, obj_cls, rules, stop_on=spec['stop_on'], ladder_format=spec['ladder'])
+            except Exception as err:
+                again = None
+                problems.append(("reading-raises", {"type": type(err).__name__, "msg": str(err)[:200], "second": True}))
+            marked = 0
+            for o, o2, e in zip(objs, again or [], exp):
+                if o is None:
+                    continue
+                for obj in (o, o2):
+                    if obj is None:
+                        continue
+                    v = list(obj.tags) if isinstance(obj.tags, list) else obj.tags
+                    if isinstance(v, list) and "<edited by the caller>" in v:
+                        marked += 1
+                if o2 is not None and o2.tags != e['tags'][0]:
+                    problems.append(("attribute-differs-from-reference", {"attr": "tags", "got": repr(o2.tags)[:80],
+                                                                          "expected": repr(e['tags'][0])[:80],
+                                                                          "after": "the caller edited a list"}))
+                    break
+            if marked > 1 and not problems:
+                problems.append(("objects-share-a-list-value", {"objects_showing_the_edit": marked}))
+            for o in objs:
+                if o is not None and isinstance(o.tags, list) and "<edited by the caller>" in o.tags:
+                    o.tags.remove("<edited by the caller>")
     if not problems:
         other_routes(ctx, spec, ws, obj_cls, rules, objs, problems)
     for mech, detail in problems[:5]:
